@@ -42,6 +42,11 @@ CLAIMS = {
    "Decides the structural core for every device type on every run: each raw send of a change command is followed by validation of the device's answer (both halves of a joined line; exit status on Linux); every error returned inside the apply region and the console layer ends the phase on its failure edge (no break/continue that goes on sending, no dropped error outside the audited table); save/commit is a plain call at every level, nothing sends after it, no recover() can swallow an abort, and the device's reply to the save is positively confirmed; the abort machinery, exit status, status file and history derive from the session result; all waits are finite. Not decided: position-k fault behaviour as executed, device timing.",
    "Trusted: go/ssa, call graph, goexpect reports time-out/EOF as error, panic unwinding semantics, the exempt rows of tables/err_exempt.tsv (each with a written reason).",
    "DESIGN.md section 4 C09, E6"),
+ "C15": ("other",
+   "typestate / ordering rules by dominance and reachability on go/ssa of package ios (who-may-call of the change sender over the call graph, stores to the reloadActive flag, def-use chain banner-strip -> echo check, accumulation of the re-arm flag)",
+   "Decides the structural core on every run: every IOS change command is sent by the one sender whose call sites are all dominated by arming the reload and a deferred cancel; configuration mode lies inside the guard; write memory is a plain call after the guarded function returned (cancel has run), nothing is sent in between; reloadActive is raised/lowered only where reload in N / reload cancel are sent; banners are stripped before the echo check; the one-minute verdict derives from the stripped banner and is accumulated over both halves of a joined command and triggers the re-arm. One genuine defect found by this rule was repaired (fix: 6536eea). Not decided: all byte offsets of an asynchronous banner.",
+   "Trusted: go/ssa, call graph; banner forms are those bannerRe matches.",
+   "DESIGN.md section 4 C15"),
 }
 
 NOT_APPLICABLE = {
